@@ -9,7 +9,7 @@ CHECKS = {
     # id: (level, technique, text, note, design_ref)
     "C06": ("exploration",
             "exhaustive small-scope enumeration (all multisets x permutations x source partitions) on the real analyzer vs reference bucket sums",
-            "Every multiset of <=3 (quick) / <=4 (thorough) transactions over a 23-element alphabet covering every tag-precedence class, "
+            "Every multiset of <=3 (quick) / <=4 (thorough) transactions over a 26-element alphabet covering every tag-precedence class, "
             "sign and zero, in every order and every split over two sources, is run through the real analyze_transactions and compared with "
             "bucket sums computed from the property statement and with every other arrangement of the same multiset. Bounded-exhaustive, not a proof.",
             "amounts are multiples of 0.25 (exact float sums); alphabet and size bound as stated; reference rule = property statement",
@@ -26,23 +26,23 @@ CHECKS.update({
     "C01": ("exploration",
             "exhaustive small-scope enumeration of rule files (all ordered sequences of <=K blocks x preambles, .rules and legacy CSV) x transactions on the real engine; differential + deletion oracles",
             "Every ordered sequence of <=3 (quick) / <=4 (thorough) distinct rules over a 17-block .rules alphabet x 4 preambles and over a 13-row legacy CSV alphabet (every other CSV file behind a UTF-8 BOM) is "
-            "written to disk, loaded through the same entry points `tally up` uses and through MerchantEngine.match, and run on 72 transactions. Expected winner = first "
+            "written to disk, loaded through the same entry points `tally up` uses and through MerchantEngine.match, and run on 108 transactions (small files also as one statement with memo / type / location columns through parse_generic_csv). Expected winner = first "
             "categorising rule whose condition is true (truth taken from the real evaluator on the one-rule file, cross-checked against the reference interpreter for variable-free rules / an independent regex+modifier reader for CSV); "
             "deleting all false rules must leave the entire observable result unchanged; the Unknown merchant name must equal the name under an empty rule set.",
             "condition meaning is delegated to C04; alphabet-bounded; caches reset between files (history is C07's)",
             "DESIGN.md 4/C01"),
     "C02": ("exploration",
             "exhaustive small-scope enumeration of rule files in both rule modes x transactions; union oracle for tags and neutrality (delete all tag-only rules) oracle",
-            "Every ordered sequence of <=3/4 rules over a 15-block alphabet (static, mixed-case and dynamic tags; tag-only rules that outrank categorising ones by specificity or "
+            "Every ordered sequence of <=3/4 rules over a 19-block alphabet (static, mixed-case and dynamic tags, special tags from two rules, a := binder next to a dynamic tag reading that name; tag-only rules that outrank categorising ones by specificity or "
             "priority, share their match text, or carry subcategory/merchant) in first_match and most_specific mode, plus legacy CSV rows with pipe tags, on 120 transactions (incl. twins that differ only in custom fields): the tag "
-            "set must equal the union of the resolved tags of all true rules, and removing every category-less rule must not change merchant/category/subcategory.",
+            "set must equal the union of the resolved tags of all true rules (also after analyze_transactions), and removing every category-less rule must not change merchant/category/subcategory.",
             "dynamic tag values come from the real evaluator on the tag expression alone; tags compared as sets",
             "DESIGN.md 4/C02"),
     "C09": ("exploration",
             "exhaustive enumeration of all subsets x all permutations of <=K rules x transactions in most_specific mode against an AST-derived lexicographic rank key",
-            "Every ordered sequence of <=3 (quick) / <=4 (thorough) distinct rules from a 16-rule alphabet, plus every sequence of 4 / 5 rules over its 12 core rules, with two exact-tie pairs, a priority-0 rule, a same-category pair and a let-binding pair is evaluated on 18 transactions through "
+            "Every ordered sequence of <=3 (quick) / <=4 (thorough) distinct rules from an 18-rule alphabet (incl. patterns holding the other quote character), plus every sequence of 4 / 5 rules over its 12 core rules, with two exact-tie pairs, a priority-0 rule, a same-category pair and a let-binding pair is evaluated on 30 transactions through "
             "engine.match, normalize_merchant, and normalize_merchant after the same file was first loaded in first_match mode; category must come from the top-ranked true "
-            "categorising rule (ties to the earlier rule), subcategory from the top-ranked one that sets a subcategory, tags from all true rules.",
+            "categorising rule (ties to the earlier rule), subcategory from the top-ranked one that sets a subcategory, tags from all true rules; a legacy-CSV family (with an invalid row at every position) runs in most_specific mode through the library and `tally up --migrate`.",
             "rank key read from the AST; alphabet restricted to rules where a textual reading gives the same key (asserted at start-up)",
             "DESIGN.md 4/C09"),
 })
@@ -50,7 +50,7 @@ CHECKS.update({
 CHECKS.update({
     "C14": ("exploration",
             "exhaustive product enumeration of legacy CSV rule files x boundary transactions; differential execution of the real migration (CSV rules vs migrated merchants.rules vs load_csv_as_engine)",
-            "Every one-row CSV over 24 regex patterns (incl. non-ASCII) x 18 modifier forms x 4 merchant names x category set/empty x 4 tag forms, and every ordered pair (quick) / triple (thorough) "
+            "Every one-row CSV over 24 regex patterns (incl. non-ASCII) x 20 modifier forms x 4 merchant names x category set/empty x 4 tag forms, and every ordered pair (quick) / triple (thorough) "
             "over a 27-row reduced alphabet (incl. short rows and padded names), is migrated by the real _migrate_csv_to_rules in a scratch budget; the generated file must load and normalize_merchant must give the "
             "same (merchant, category, subcategory, tag set) for every description x boundary amount x boundary date before and after, and through load_csv_as_engine.",
             "today fixed at 2025-06-15; three recorded known findings (relative dates, ' and ' inside a CSV regex, a comma inside a pipe-separated tag)",
@@ -60,7 +60,7 @@ CHECKS.update({
 CHECKS.update({
     "C05": ("exploration",
             "exhaustive enumeration of cell tables x layouts x delimiters x header x decimal x sign; expected transactions computed from the cells by an independent reader; row-independence transition oracle",
-            "Every table of <=2 (quick) / <=3 (thorough) rows over 36 row kinds (incl. six dates only a strict reading of the format rejects) is rendered under 7 layouts x 4 delimiter kinds x header/no header x 2 decimal conventions x 4 sign modes "
+            "Every table of <=2 (quick) / <=3 (thorough) rows over 40 row kinds (incl. six dates only a strict reading of the format rejects) is rendered under 7 layouts x 6 delimiter kinds (incl. regex delimiters with optional and named groups) x header/no header x 2 decimal conventions x 5 sign modes "
             "and read by the real resolve_source_format + parse_generic_csv; the result must equal the transactions derived from the cell table, and parse(table) must equal the "
             "concatenation of parse(row) for each row; small tables are read again behind a UTF-8 byte-order mark and must read the same.",
             "reference reader is Decimal-based and follows the statement; ambiguous numerals / trailing date text / unrepresentable rows excluded and listed in assumptions",
@@ -83,9 +83,9 @@ CHECKS.update({
 CHECKS.update({
     "C07": ("model_checking",
             "explicit-state search over operation histories on the real process state: every history of <=D ops is replayed in a forked child, each observation executed in a grandchild forked from the reached state, compared with a fresh process",
-            "All histories of length <=3 (quick) / <=4 (thorough) over 21 operations (loads of .rules/CSV/bad/no file in both modes, a reload that rewrites a file, classifications of 5 "
-            "transactions incl. two that differ only in a custom field, engine matches, 4 cache-colliding expressions and a := binder / reader pair; one CSV file carries a relative-date row) are executed on the real module-level caches; on every "
-            "(history, observation) transition the result must equal the same observation in a fresh process that performed only the last load, and rules / supplemental rows / "
+            "All histories of length <=3 (quick) / <=4 (thorough) over 25 operations (loads of .rules/CSV/bad/no file in both modes, a reload that rewrites a file, whole in-process `tally up` runs on two budgets, classifications of 5 "
+            "transactions incl. two that differ only in a custom field, engine matches, 4 cache-colliding expressions, two fuzzy() thresholds on one text and a := binder / reader pair; one CSV file carries a relative-date row) are executed on the real module-level caches; on every "
+            "(history, observation) transition the result must equal the same observation in a fresh process that performed only the last load (library observations made after a command-line run, which loads rules of its own, are not judged), and rules / supplemental rows / "
             "caller's field dict must be unchanged. States are histories (no abstraction), so every trace is an execution of the implementation.",
             "fresh process = fork of a worker that imported tally and never loaded or evaluated anything; depth- and alphabet-bounded",
             "DESIGN.md 4/C07"),
@@ -114,7 +114,7 @@ CHECKS.update({
             "DESIGN.md 4/C15"),
     "C20": ("model_checking",
             "explicit-state level-synchronous BFS over budget directory trees with the real CLI commands as transitions (forked processes), tree-hash visited set, frame-condition invariant on every transition",
-            "From 13 initial budget trees (new/old layout, missing views/rules, a views_file setting naming an absent file, legacy CSV with rules / header only / with existing backups incl. gaps in their numbering and unreferenced merchants.rules, CRLF and "
+            "From 16 initial budget trees (zero-length configuration files, a user's own .gitignore and .skipped.csv, a settings file naming a custom rules file, new/old layout, missing views/rules, a views_file setting naming an absent file, legacy CSV with rules / header only / with existing backups incl. gaps in their numbering and unreferenced merchants.rules, CRLF and "
             "trailing-blank settings) all 13 commands (up in 4 output modes, explain x2, discover x2, diag, inspect, init, init <dir>, up --migrate) are applied to every reachable tree "
             "up to depth 3 (quick) / 6 or fixpoint (thorough); read-only commands must leave every file outside the output location byte-identical and create nothing outside it; init / "
             "--migrate must keep every user file (settings may only grow, the legacy CSV may only move to a fresh .bak* with identical bytes).",
@@ -137,9 +137,9 @@ CHECKS.update({
 CHECKS.update({
     "C08": ("exploration",
             "exhaustive product enumeration of ill-typed / partial / lazily failing expressions x positions x placements x transactions processed in sequence; differential oracle against a fresh engine and against the file with the failing element removed",
-            "56 syntactically valid but failing expressions (type confusion, bad regexes, empty sequences, exhausted generators, unknown names, expressions failing only for some items, "
-            "generators that fail when consumed) in each of 9 positions (match, match after a let: that shadows a global, let unused/used, field, tag, transform before / after a decisive transform of the same field, top-level variable) at 3 placements, on 10 transactions fed through "
-            "one engine with failing items first, via engine.match, normalize_merchant and parse_generic_csv; 14 failing view expressions as filter / view-local variable / global variable through "
+            "59 syntactically valid but failing expressions (type confusion, bad regexes, empty sequences, exhausted generators, unknown names, expressions failing only for some items, "
+            "generators that fail when consumed) in each of 10 positions (match, match after a let: that shadows a global, let unused/used, a let chain, field, tag, transform before / after a decisive transform of the same field, top-level variable) at 3 placements, on 10 transactions fed through "
+            "one engine with failing items first, via engine.match, normalize_merchant and parse_generic_csv; legacy CSV files with 8 unevaluable rows / 3 unevaluable tags; 14 failing view expressions as filter / view-local variable / global variable through "
             "analyze_transactions -> classify_by_sections. No exception may escape, all rows must come back, a failure on one item must not affect another, and the outcome for a "
             "failing item must equal that of the file without the failing element.",
             "failure for an item is decided by evaluating the expression alone with the real evaluator; loader-rejected files are outside the property",
@@ -160,24 +160,24 @@ CHECKS.update({
 
 CHECKS.update({
     "C10": ("exploration",
-            "exhaustive enumeration of views files (all sequences of <=K views over 28 filters) x merchant sets (<=3 of 14 payment histories) through the real analyse/classify chain against reference primitives recomputed from raw transactions; independence and totals transition oracles",
-            "Every sequence of <=2 views over 28 filters incl. chained comparisons (thorough: also <=3 over a 10-filter sub-alphabet) x every set of <=3 merchants from 14 payment histories incl. a 29 February payment runs through "
+            "exhaustive enumeration of views files (all sequences of <=K views over 32 filters) x merchant sets (<=3 of 15 payment histories) through the real analyse/classify chain against reference primitives recomputed from raw transactions; independence and totals transition oracles",
+            "Every sequence of <=2 views over 32 filters incl. chained comparisons (thorough: also <=3 over a 10-filter sub-alphabet) x every set of <=3 merchants from 15 payment histories incl. a 29 February payment and twelve equal payments runs through "
             "analyze_transactions -> classify_by_sections -> compute_section_totals; each (view, merchant) membership must equal the filter evaluated by mc/ref/views.py over the "
             "merchant's own raw payments (months, total, population cv, tags, by(), aggregates, period(), global and view-local variables), merchants tagged income/transfer/"
             "investment in any letter case never appear, an unevaluable filter excludes, a view's membership must equal its membership when it is the only view, and each view's "
-            "total is the sum of its members' totals.",
-            "cv with zero mean, by(week) across a year boundary, stddev() and duplicate view names are not judged",
+            "total is the sum of its members' totals; a CLI family reads the same views out of `tally up` report data and `tally explain --view` combined with --category.",
+            "cv with zero mean, by(week) across a year boundary and duplicate view names are not judged",
             "DESIGN.md 4/C10"),
 })
 
 CHECKS.update({
     "C12": ("exploration",
             "exhaustive enumeration of transaction subsets x views x output formats through the real analyser and all renderers; the HTML is decoded with html.parser + json and compared with the analysed data; printed figures compared with reference bucket sums",
-            "Every subset of <=3 (quick) / <=4 (thorough) of 19 adversarial transactions (colliding merchant ids, </script>, quotes, backslashes, placeholder text, braces, "
-            "non-ASCII, refunds, negative income, transfers, investment, zero-net merchant, two special tags on one transaction, a name equal to a suffixed id, extra fields) with and without views is rendered as HTML (embedded and separate files), "
+            "Every subset of <=3 (quick) / <=4 (thorough) of 23 adversarial transactions (colliding merchant ids, </script>, quotes, backslashes, placeholder text, braces, "
+            "non-ASCII, refunds, negative income, transfers, investment, zero-net merchant, two special tags on one transaction, a name equal to a suffixed id, </SCRIPT> in other spellings, falsy and date-valued extra fields) with and without views is rendered as HTML (embedded and separate files), "
             "JSON, Markdown (verbosity 0-2), text summary and views summary; no renderer may raise, every printed income/spending/credits/transfer/cash-flow figure must equal "
             "the analysed one at that format's precision, and the decoded HTML payload must contain every merchant and every transaction exactly once with identical fields and "
-            "category sums that add up.",
+            "category sums that add up; quiet command-line runs must print a document that parses from its first byte.",
             "html.parser stands in for a browser; JSON judged on income_total / credits_total / net_cash_flow only",
             "DESIGN.md 4/C12"),
 })
@@ -199,7 +199,7 @@ CHECKS.update({
             "exhaustive enumeration of budgets over rule-file feature subsets x rule mode x transform x supplemental; three-way differential execution of `tally up`, `tally explain` and `tally discover` through the real CLI in forked processes, with twin budgets as oracle for description probes",
             "Every budget over feature subsets (<=1 feature quick, all 64 subsets thorough) of {tag-only rule first, top-level variable, let+field, not contains(), weekday, \"X\" in "
             "description} x 2 rule modes x transform on/off x supplemental source on/off, plus legacy-CSV budgets: for every merchant `up` reports, `explain <merchant>` must give the same "
-            "category / subcategory / tags / pattern; for 13 (description, amount) probes (incl. sign-sensitive and blank-run-sensitive rules) `explain <description> --amount` must equal what `up` assigns to that row in a twin budget "
+            "category / subcategory / tags / pattern; for 15 (description, amount) probes (incl. sign-sensitive and blank-run-sensitive rules) `explain <description> --amount` must equal what `up` assigns to that row in a twin budget "
             "containing it; `discover --format json` must list exactly the raw descriptions `up` leaves Unknown with equal counts and totals.",
             "probes are independent of date / source / custom fields; each comparison is between real CLI runs in fresh processes",
             "DESIGN.md 4/C16"),
